@@ -10,6 +10,7 @@ PROPS = {"C11": dict(
         "Zrnt.Proofs.C11.unknown_reported",
         "Zrnt.Proofs.C11.queries_total_unpruned",
         "Zrnt.Proofs.C11.queries_after_prune_false",
+        "Zrnt.Proofs.C11.getSlot_inSubtree_refine_partial",
     ],
     modes=[dict(name="fc11", stateful=True, max_shrinks=4,
                 nontrivial=_nontrivial(("chain", "closest", "canonat", "getslot", "insub", "search", "findhead", "nodes")))],
